@@ -151,13 +151,36 @@ func init() {
 		}
 		fmt.Fprintf(w, "def normBackslash : Bool := %s\n", c12Bool(norm))
 		// guards
-		tot := c12Compares(rz, "unzipSize")
+		var tot [][2]string
+		for _, c := range c12Compares(rz, "unzipSize") {
+			if c[1] == "f.options.UnzipSizeLimit" {
+				tot = append(tot, c)
+			}
+		}
 		if len(tot) != 1 || tot[0][1] != "f.options.UnzipSizeLimit" {
 			fail("ReadZipReader: exactly one comparison `unzipSize <op> f.options.UnzipSizeLimit` (found %v)", tot)
 			tot = [][2]string{{"?", ""}}
 		}
 		fmt.Fprintf(w, "def sizeGuardOp : String := %s\n", leanStr(tot[0][0]))
-		fs := c12Compares(rz, "fileSize")
+		// the size guard also rejects a negative entry size / a wrapped running total (declared sizes >= 2^63)
+		negGuard := false
+		ast.Inspect(rz.Body, func(n ast.Node) bool {
+			if is, ok := n.(*ast.IfStmt); ok {
+				c := src(is.Cond)
+				if strings.HasSuffix(c, "unzipSize "+tot[0][0]+" f.options.UnzipSizeLimit") &&
+					strings.HasPrefix(c, "fileSize < 0 || unzipSize < 0 || ") {
+					negGuard = true
+				}
+			}
+			return true
+		})
+		fmt.Fprintf(w, "def sizeGuardRejectsNegative : Bool := %s\n", c12Bool(negGuard))
+		var fs [][2]string
+		for _, c := range c12Compares(rz, "fileSize") {
+			if c[1] == "f.options.UnzipXMLSizeLimit" {
+				fs = append(fs, c)
+			}
+		}
 		if len(fs) != 2 || fs[0][1] != "f.options.UnzipXMLSizeLimit" || fs[1][1] != "f.options.UnzipXMLSizeLimit" {
 			fail("ReadZipReader: two comparisons `fileSize <op> f.options.UnzipXMLSizeLimit` (found %v)", fs)
 			fs = [][2]string{{"?", ""}, {"?", ""}}
@@ -197,7 +220,7 @@ func init() {
 		iDrop1, iDrop2 := strings.Index(body, "f.tempFiles.LoadAndDelete(fileName)"), strings.Index(body, "delete(fileList, fileName)")
 		iRm, iSpill := strings.Index(body, "os.Remove(path.(string))"), strings.Index(body, "f.unzipToTemp(v)")
 		fmt.Fprintf(w, "def dupReplaces : Bool := %s\n", c12Bool(iDrop1 >= 0 && iRm > iDrop1 && iDrop2 > iRm && iSpill > iDrop2))
-		iAcc, iGuard := strings.Index(body, "unzipSize += fileSize"), strings.Index(body, "unzipSize "+tot[0][0])
+		iAcc, iGuard := strings.Index(body, "unzipSize += fileSize"), strings.Index(body, "unzipSize "+tot[0][0]+" f.options")
 		fmt.Fprintf(w, "def sizeAccumulatedBeforeGuard : Bool := %s\n", c12Bool(iAcc >= 0 && iGuard > iAcc))
 		iRead := strings.Index(body, "readFile(v)")
 		fmt.Fprintf(w, "def sizeGuardBeforeInflate : Bool := %s\n", c12Bool(iGuard >= 0 && iRead > iGuard && strings.Index(body, "unzipToTemp(v)") > iGuard))
